@@ -7,8 +7,11 @@ re-encoded ToBeSignedData (payload + signed header information) exactly as recei
 -/
 import FlexModel.Sec.Lemmas
 import FlexModel.Sec.Reentrancy
+import FlexModel.Sec.OwnIndep
+import FlexModel.Sec.RxPath
 import Generated.Sec
 import Generated.SecWrites
+import Generated.SecRx
 
 namespace Props.C03
 open FlexModel.Sec FlexModel.Sec.Store
@@ -268,6 +271,121 @@ theorem serial_deliveries_authentic {U : Cert → Prop} (hinj : IdInj U) {cfg : 
     exact deliver_implies_authentic hinj hg hinv1 hq (S' := (gate cfg true hv (gate cfg true hv S p).1 q).1) (by
       simp only [serial] at h; rw [← h])
 
+
+/-! ## Round 4: own certificates, unsigned envelopes, aborted packets -/
+
+/-- the receiver's OWN certificates grant nothing: the verdict on a received message (report / exception, certificate
+    id, plain message) is the same whatever `own_certificates` holds, and the library learns the same certificates –
+    for every state, every message, every set of own certificates.  In particular a packet naming the receiver's own
+    (public) ticket digest as signer is judged exactly as on a station that holds no own ticket at all. -/
+theorem own_certificates_grant_nothing (cfg : Cfg) (S : Station) (o : List SC) (m : Msg) :
+    ((S.withOwn o).verifyMsg cfg m).2 = (S.verifyMsg cfg m).2 ∧
+    ((S.withOwn o).verifyMsg cfg m).1.store = (S.verifyMsg cfg m).1.store.withOwn o :=
+  verifyMsg_withOwn cfg S o m
+
+/-- … hence also the gate's verdict -/
+theorem gate_independent_of_own (cfg : Cfg) (en hv : Bool) (S : Station) (o : List SC) (p : Packet) :
+    (gate cfg en hv (S.withOwn o) p).2 = (gate cfg en hv S p).2 := by
+  match p, hv, en with
+  | .unsecured pl, _, true => rfl
+  | .unsecured pl, _, false => rfl
+  | .otherNH, _, _ => rfl
+  | .badVersion, _, _ => rfl
+  | .secured none, true, _ => rfl
+  | .secured none, false, _ => rfl
+  | .secured (some m), false, _ => rfl
+  | .secured (some m), true, _ =>
+    have h := (verifyMsg_withOwn cfg S o m).1
+    simp only [gate, Bool.not_true, Bool.false_eq_true, if_false]
+    generalize (S.withOwn o).verifyMsg cfg m = r1 at h ⊢
+    generalize S.verifyMsg cfg m = r2 at h ⊢
+    obtain ⟨S1, v1⟩ := r1
+    obtain ⟨S2, v2⟩ := r2
+    simp only at h
+    subst h
+    match v1 with
+    | .error e => rfl
+    | .ok v =>
+      simp only
+      by_cases hr : (v.report != .success) = true
+      · simp only [hr, if_true]
+      · simp only [hr]
+        match v.plain with
+        | some pl => rfl
+        | none => rfl
+
+/-- a digest-signed packet naming one of the receiver's own certificates that is not among the known tickets is not
+    delivered, whatever its signature (instance of `unknown_digest_dropped`: holding the certificate as OWN does not
+    make it a known ticket) -/
+theorem own_ticket_digest_dropped {cfg : Cfg} {en hv : Bool} {S : Station} {m : Msg} {a : SC}
+    (_hown : a ∈ S.store.own) (hsg : m.signer = .digest a.c.id) (hun : find S.store.ats a.c.id = none) (pl : Nat) :
+    (gate cfg en hv S (.secured (some m))).2 ≠ .pass pl :=
+  unknown_digest_dropped hsg hun pl
+
+/-- NH = SECURED_PACKET followed by anything that is not a decodable EtsiTs103097Data-Signed – an undecodable
+    envelope, or an envelope whose content choice is unsecuredData / encryptedData / signedCertificateRequest (no signer,
+    no signature) – is never delivered, in every configuration and state -/
+theorem unsigned_envelope_never_delivered (cfg : Cfg) (en hv : Bool) (S : Station) (pl : Nat) :
+    (gate cfg en hv S (.secured none)).2 ≠ .pass pl ∧ (gate cfg en hv S (.secured none)).1 = S := by
+  unfold gate
+  cases hv <;> simp
+
+/-- regenerated facts about the receive path (ast pass `gen_sec_rx` of harness/gen_sec.py):
+    * the conditions of `process_basic_header` / `process_security_header` read `mib.itsGnProtocolVersion`,
+      `mib.itsGnSecurity` and `verify_service` of the router and NOTHING else of `self` – the gate is the function
+      `gate cfg en hv S p` of the model, without router state (a flag consulted by the gate re-opens this);
+    * the only store of the two functions that outlives the call is `_rx_context.secured_message`, and it is
+      re-assigned in a `finally` clause (model: `RxCtx`, `behindGate`);
+    * `VerifyService` consults the certificate library through `get_authorization_ticket_by_hashedid8` and
+      `verify_sequence_of_certificates` only (model: `find st.ats`, `verifySeq1`; never `own_certificates`);
+    * every `return SNVERIFYConfirm(report=ReportVerify.SUCCESS …)` of VerifyService sits inside an `if` whose test
+      depends on the result of `verify_with_pk` (model: `judge` answers success only on `m.sigBy = some a.c.key`). -/
+theorem receive_path_matches_source :
+    Generated.SecRx.gateStateReads = ["mib.itsGnProtocolVersion", "mib.itsGnSecurity", "verify_service"] ∧
+    Generated.SecRx.rxWrites = [("process_security_header", "set", "_rx_context.secured_message", true)] ∧
+    Generated.SecRx.libraryUses = ["get_authorization_ticket_by_hashedid8", "verify_sequence_of_certificates"] ∧
+    Generated.SecRx.successSites ≠ [] ∧ Generated.SecRx.successSites.all id = true := by
+  decide
+
+/-- the receive context is clean after EVERY history – whichever packets were delivered, dropped, rejected with an
+    exception or aborted by an exception behind the gate (fault + sequence) -/
+theorem rx_context_clean_after_any_history (cfg : Cfg) (en hv : Bool) (hist : List RxIn) (S : Station) :
+    (rxRun cfg en hv (S, {}) hist).2.secured = none :=
+  rxRun_clean cfg en hv hist (S, {}) rfl
+
+/-- unsecured packets are dropped with security ENABLED after every history of received frames, including frames
+    whose processing behind the gate raised: nothing an earlier packet left behind opens the gate -/
+theorem unsecured_dropped_after_any_history (cfg : Cfg) (hv : Bool) (hist : List RxIn) (S : Station) (pl frame : Nat)
+    (u : Upper) :
+    (rxStep cfg true hv (rxRun cfg true hv (S, {}) hist) { pkt := .unsecured pl, frame := frame, upper := u }).2
+      = { gate := .drop "unsecured" } ∧
+    (rxStep cfg true hv (rxRun cfg true hv (S, {}) hist) { pkt := .unsecured pl, frame := frame, upper := u }).1
+      = rxRun cfg true hv (S, {}) hist := by
+  generalize rxRun cfg true hv (S, {}) hist = st
+  exact ⟨rfl, rfl⟩
+
+/-- … and whatever IS delivered after such a history is authentic: the station a history leaves behind is the fold of
+    the gate over its packets (`rxRun_station`), so `deliver_implies_authentic_after_any_history` applies verbatim -/
+theorem deliver_implies_authentic_after_aborted_packets {U : Cert → Prop} (hinj : IdInj U) {cfg : Cfg}
+    (hg : cfg.allGuard = true) (hist : List RxIn) {S0 : Station} (hinv : Inv U S0.store) {hv : Bool}
+    (hh : ∀ x ∈ hist, ∀ c ∈ Packet.certs x.pkt, U c) (x : RxIn) (hp : ∀ c ∈ Packet.certs x.pkt, U c) {pl : Nat}
+    (h : (rxStep cfg true hv (rxRun cfg true hv (S0, {}) hist) x).2.gate = .pass pl) :
+    Authentic (rxStep cfg true hv (rxRun cfg true hv (S0, {}) hist) x).1.1.store x.pkt pl := by
+  have hg1 := rxStep_gate cfg true hv (rxRun cfg true hv (S0, {}) hist) x
+  rw [hg1.1] at h
+  rw [hg1.2, rxRun_station]
+  have hh' : ∀ q ∈ hist.map (·.pkt), ∀ c ∈ Packet.certs q, U c := by
+    intro q hq c hc
+    obtain ⟨y, hy, rfl⟩ := List.mem_map.1 hq
+    exact hh y hy c hc
+  have key := deliver_implies_authentic_after_any_history hinj hg (hist.map (·.pkt)) hinv (hv := hv) hh' hp (pl := pl)
+    (S' := (gate cfg true hv ((hist.map (·.pkt)).foldl (stepPacket cfg true hv) S0) x.pkt).1)
+  have hfold : (hist.map (·.pkt)).foldl (fun S p => (gate cfg true hv S p).1) S0
+      = (hist.map (·.pkt)).foldl (stepPacket cfg true hv) S0 := rfl
+  rw [rxRun_station] at h
+  rw [hfold] at h ⊢
+  exact key (by rw [← h])
+
 /-! ## Non-vacuity: the honest packet IS delivered, its tampered twins are not -/
 
 def xRoot : Cert :=
@@ -313,5 +431,20 @@ example : (gate Cfg.fixed true true xStation (.secured (some xTampered))).2 ≠ 
       rw [this] at ha
       simp only [List.mem_singleton] at ha
       subst ha; rfl) 8
+
+/-- round 4, non-vacuity: a station HOLDING ticket 12 as its own certificate (not among the known tickets) drops a
+    digest-signed packet naming it, whatever key signed; the genuine certificate-carrying packet is still delivered -/
+def xOwnStation : Station := xStation.withOwn [⟨xAT, some xAA⟩]
+example : (gate Cfg.fixed true true xOwnStation (.secured (some (xMsg (.digest 12) (some 66))))).2 = .drop "report-9" := by decide
+example : (gate Cfg.fixed true true xOwnStation (.secured (some (xMsg (.digest 12) (some 12))))).2 = .drop "report-9" := by decide
+example : (gate Cfg.fixed true true xOwnStation (.secured (some (xMsg (.certs [xAT]) (some 12))))).2 = .pass 7 := by decide
+example : (gate Cfg.fixed true true xStation (.secured none)).2 = .raise "parse" := by decide
+/-- a genuine packet aborted behind the gate, then an unsecured one: dropped; the context is clean -/
+example : (rxStep Cfg.fixed true true
+    (rxRun Cfg.fixed true true (xStation, {}) [{ pkt := .secured (some (xMsg (.certs [xAT]) (some 12))), frame := 1, upper := .raises }])
+    { pkt := .unsecured 9 }).2 = { gate := .drop "unsecured" } := by decide
+example : (rxStep Cfg.fixed true true (xStation, {})
+    { pkt := .secured (some (xMsg (.certs [xAT]) (some 12))), frame := 1, upper := .raises }).2
+    = { gate := .pass 7, seen := some 1, raised := true } := by decide
 
 end Props.C03
